@@ -16,7 +16,15 @@ Definition enc_hash (wp : bool) (a : addr) : N :=
   fold_left (fun acc x => (acc * 65536 + x + 1)%N)
             ([if wp then 1%N else 0%N; N.of_nat (List.length (a_ip a))] ++ a_ip a ++ [a_port a]) 0%N.
 
-Record rstate := mkr { rm : mgr; rnow : N; rseen : list N; rtimer : option N }.
+Record rstate := mkr { rm : mgr; rnow : N; rseen : list N; rtimer : option N; rsel : option nat }.
+
+(** the flow named by the most recent [SelectBackend] (the shell resolves it at once) *)
+Fixpoint last_sel (os : list lout) (acc : option nat) : option nat :=
+  match os with
+  | [] => acc
+  | (_, SelectBackend id _ _) :: os' => last_sel os' (Some id)
+  | _ :: os' => last_sel os' acc
+  end.
 
 (** the shell's one-shot timer: every [ArmTimer] replaces it *)
 Fixpoint last_arm (os : list lout) (acc : option N) : option N :=
@@ -99,7 +107,7 @@ Definition cfg_of (args : list tok) : option (cfg * list tok) :=
 Definition do_step (st : rstate) (i : input) : rstate * list tok :=
   let '(m', os) := step enc_hash (rm st) (rnow st) i in
   let '(seen', ts) := outs_toks (rseen st) os in
-  (mkr m' (rnow st) seen' (last_arm os (rtimer st)), ts ++ st_toks m').
+  (mkr m' (rnow st) seen' (last_arm os (rtimer st)) (last_sel os (rsel st)), ts ++ st_toks m').
 
 Definition step_op (st : rstate) (op : list tok) : rstate * list tok :=
   let bad := (st, [TS "badop"]) in
@@ -108,7 +116,7 @@ Definition step_op (st : rstate) (op : list tok) : rstate * list tok :=
     if name =? "new" then
       match cfg_of args with
       | Some (c, [TN mf; TN mrx; TN _seed]) =>
-        (mkr (mgr_new c (Z.to_N mf) (Z.to_N mrx)) (rnow st) (rseen st) None, [])
+        (mkr (mgr_new c (Z.to_N mf) (Z.to_N mrx)) (rnow st) (rseen st) None None, [])
       | _ => bad end
     else if name =? "cd" then
       match args with
@@ -122,6 +130,13 @@ Definition step_op (st : rstate) (op : list tok) : rstate * list tok :=
       match args with
       | [TN id; TB bid; TB ip; TN port] => do_step st (IResolved (Z.to_nat id) bid (mkaddr ip (Z.to_N port)))
       | _ => bad end
+    else if name =? "resnew" then
+      (* the shell's synchronous resolution of the flow just selected *)
+      match args, rsel st with
+      | [TB bid; TB ip; TN port], Some id =>
+        do_step (mkr (rm st) (rnow st) (rseen st) (rtimer st) None) (IResolved id bid (mkaddr ip (Z.to_N port)))
+      | [TB _; TB _; TN _], None => (st, [])
+      | _, _ => bad end
     else if name =? "setc" then
       match cfg_of args with
       | Some (c, []) => do_step st (ISetCluster c)
@@ -133,13 +148,13 @@ Definition step_op (st : rstate) (op : list tok) : rstate * list tok :=
     else if name =? "drain" then do_step st IDrain
     else if name =? "tick" then
       match args with
-      | [TN d] => (mkr (rm st) (rnow st + Z.to_N d)%N (rseen st) (rtimer st), [])
+      | [TN d] => (mkr (rm st) (rnow st + Z.to_N d)%N (rseen st) (rtimer st) (rsel st), [])
       | _ => bad end
     else if name =? "fire" then
       (* the shell's timer fires, at the armed deadline or [e] ms early *)
       match args, rtimer st with
       | [TN e], Some d =>
-        do_step (mkr (rm st) (N.max (rnow st) (d - Z.to_N e)) (rseen st) None) ITimeout
+        do_step (mkr (rm st) (N.max (rnow st) (d - Z.to_N e)) (rseen st) None (rsel st)) ITimeout
       | [TN _], None => (st, [])
       | _, _ => bad end
     else if name =? "timeout" then do_step st ITimeout
@@ -161,4 +176,4 @@ Fixpoint run_from (st : rstate) (ops : list (list tok)) : list (list tok) :=
 Definition empty_cfg : cfg := mkcfg [] false 0 0 0 0 false false.
 
 Definition run_case (ops : list (list tok)) : list (list tok) :=
-  run_from (mkr (mgr_new empty_cfg 0 0) 0%N [] None) ops.
+  run_from (mkr (mgr_new empty_cfg 0 0) 0%N [] None None) ops.
